@@ -10,5 +10,6 @@ INVARIANT CodesRight
 INVARIANT ResetAtEnd
 INVARIANT FirstCharCodes
 INVARIANT NoError
+INVARIANT AllKnown
 INVARIANT StackRestored
 INVARIANT EmitB
